@@ -399,7 +399,7 @@ func (r *runner) run() int {
 		if tc.Skip {
 			continue
 		}
-		if len(tc.GenInclude) > 0 && (strings.Contains(name, "_Parse_") || strings.Contains(name, "_Model_")) {
+		if len(tc.GenInclude) > 0 && (strings.Contains(name, "_Parse_") || strings.Contains(name, "_Model_") || strings.Contains(name, "_Long_")) {
 			inc := false
 			for _, g := range tc.GenInclude {
 				if strings.Contains(name, g) {
